@@ -27,10 +27,13 @@ R=$OUT/result$N.json; rm -f "$R"
 cp "$DEMO" examples/seeded_demo.rs
 # demo on the clean tree
 if cargo run -q --offline --example seeded_demo >/dev/null 2>&1; then res "$R" demo_passes_clean true; else res "$R" demo_passes_clean false; fi
+rm -f examples/seeded_demo.rs
 if ! git apply --check "$PATCH" 2>/dev/null; then res "$R" applies false; echo "$ID-$N: patch does not apply"; exit 1; fi
 git apply "$PATCH"; res "$R" applies true
 if cargo build -q --offline >/dev/null 2>&1; then res "$R" compiles true; else res "$R" compiles false; git checkout -q -- .; exit 1; fi
+# the existing suite, without the demonstration present (cargo test also builds everything under examples/)
 if cargo test -q --offline >$OUT/test$N.log 2>&1; then res "$R" tests_pass true; else res "$R" tests_pass false; fi
+cp "$DEMO" examples/seeded_demo.rs
 if cargo run -q --offline --example seeded_demo >$OUT/demo$N.log 2>&1; then res "$R" demo_fails_patched false; else res "$R" demo_fails_patched true; fi
 rm -f examples/seeded_demo.rs
 # harness copy against the patched worktree
